@@ -76,6 +76,10 @@ pub trait HX {
     fn tclient(name: &str, data: Penelope) -> Option<Self::T>;
     fn tclient_call(c: &mut Self::T, op: &str, bt: u64, t: &[&str]) -> impl std::future::Future<Output = Option<Option<Value>>>;
     fn tclient_state(c: &Self::T) -> &Self::A;
+    /// a random order, as the tokens that follow the backtest id in an `INS` line (concurrency run)
+    fn rand_ins(r: &mut Rng) -> String;
+    fn rand_del(r: &mut Rng) -> String;
+    fn conc_syms() -> [&'static str; 2];
 }
 
 fn tv<T: serde::Serialize, E>(r: Result<T, E>) -> Option<Option<Value>> {
@@ -117,6 +121,17 @@ impl HX for U {
     }
     fn tclient_state(c: &Self::T) -> &Self::A {
         c.verif_state()
+    }
+    fn rand_ins(r: &mut Rng) -> String {
+        let t = r.below(6);
+        let px = (1 + r.below(12)) as f64 * 0.5;
+        format!("{} {} {} {}", t, r.pick(&["AAA", "BBB"]), fb((1 + r.below(5)) as f64), if t < 2 { "-".to_string() } else { fb(px) })
+    }
+    fn rand_del(r: &mut Rng) -> String {
+        format!("{}", r.below(8))
+    }
+    fn conc_syms() -> [&'static str; 2] {
+        ["AAA", "BBB"]
     }
 }
 
@@ -191,6 +206,21 @@ impl HX for J {
     }
     fn tclient_state(c: &Self::T) -> &Self::A {
         c
+    }
+    fn rand_ins(r: &mut Rng) -> String {
+        let px = (1 + r.below(12)) as f64 * 0.5;
+        let kind = match r.below(4) {
+            0 => "L:ioc".to_string(),
+            1 => "L:gtc".to_string(),
+            _ => format!("T:{}:{}:{}", fb(if r.chance(1, 2) { px } else { (1 + r.below(12)) as f64 * 0.5 }), r.below(2), if r.chance(1, 2) { "tp" } else { "sl" }),
+        };
+        format!("{} {} {} {} {} {} {}", r.below(2), r.below(2), fb(px), fb((1 + r.below(5)) as f64), kind, r.below(3), r.below(2))
+    }
+    fn rand_del(r: &mut Rng) -> String {
+        format!("{} {}", r.below(2), r.below(8))
+    }
+    fn conc_syms() -> [&'static str; 2] {
+        ["0", "1"]
     }
 }
 
@@ -468,4 +498,142 @@ async fn run_async<H: HX>(ops: &str, annot: &str, imp: &str) {
         h.stop(false).await;
     }
     out.finish();
+}
+
+
+/// the in-process result of one request, as the JSON value the transport is expected to deliver
+fn direct_want<H: HX>(direct: &mut H::A, t: &[&str], bt: u64) -> Option<Value> {
+    match t[0] {
+        "INIT" => catch(|| direct.init(t[1])).flatten().map(|id| json!({ "backtest_id": id })),
+        "INS" => if direct.ins(bt, &t[2..]).0 { Some(Value::Null) } else { None },
+        "DEL" => if direct.del(bt, &t[2..]) { Some(Value::Null) } else { None },
+        "TICK" => catch(|| direct.tick_annot(bt)).flatten().map(|(_, v)| v),
+        "FETCH" => direct.fetch(bt).map(quotes_value),
+        "NOW" => direct.now(bt).map(|(d, hn)| json!({"now": d, "has_next": hn})),
+        "INFO" => direct.clock(bt).map(|c| json!({"version": "v1", "dataset": c.2})),
+        _ => None,
+    }
+}
+
+/// **real concurrency** (C08): `tasks` OS threads, each with its own reqwest client, create one backtest each on one
+/// real multi-worker `HttpServer` and drive it at the same time; afterwards every thread's responses must equal those
+/// of the same requests on a fresh in-process AppState that holds only that backtest, and the ids handed out must be
+/// pairwise distinct. Prints one JSON line. Schedules are whatever the OS gives: a support for the serial theorem,
+/// not a proof about threads.
+pub fn conc<H: HX>(seed: u64, tasks: usize, rounds: usize, steps: usize)
+where
+    Mutex<H::A>: 'static,
+{
+    let data: web::Data<Mutex<H::A>> = web::Data::new(Mutex::new(H::A::create(&mut HashMap::new())));
+    let d = data.clone();
+    let (tx, rx) = std::sync::mpsc::channel();
+    std::thread::spawn(move || {
+        let sys = actix_web::rt::System::new();
+        match actix_web::HttpServer::new(move || App::new().app_data(d.clone()).configure(H::configure)).workers(4).disable_signals().bind(("127.0.0.1", 0)) {
+            Ok(s) => {
+                let _ = tx.send(Some(s.addrs()[0]));
+                let _ = sys.block_on(s.run());
+            }
+            Err(_) => {
+                let _ = tx.send(None);
+            }
+        }
+    });
+    let addr = if std::env::var("VERIF_NO_TCP").is_ok() { None } else { rx.recv_timeout(std::time::Duration::from_secs(10)).ok().flatten() };
+    let Some(addr) = addr else {
+        println!("{}", json!({"tcp": false}));
+        return;
+    };
+    let (mut requests, mut collisions, mut mismatches) = (0u64, 0u64, 0u64);
+    let mut first: Option<Value> = None;
+    for round in 0..rounds {
+        // a dataset of 2..9 dates, two symbols, some gaps
+        let mut rng = Rng::new(seed.wrapping_mul(1000003).wrapping_add(round as u64));
+        let mut ds = Penelope::new();
+        let nd = 2 + rng.below(8) as i64;
+        for dte in 0..nd {
+            for sym in H::conc_syms() {
+                if dte == 0 || !rng.chance(1, 5) {
+                    let bid = (1 + rng.below(12)) as f64 * 0.5;
+                    ds.add_quote(bid, bid + rng.below(2) as f64 * 0.5, 100 + dte, sym.to_string());
+                }
+            }
+        }
+        let mut m = HashMap::new();
+        m.insert("D".to_string(), ds);
+        data.clear_poison();
+        *data.lock().unwrap_or_else(|e| e.into_inner()) = H::A::create(&mut m.clone());
+        let mut handles = Vec::new();
+        for task in 0..tasks {
+            let path = format!("http://{addr}");
+            let tseed = seed.wrapping_mul(7919).wrapping_add((round * 64 + task) as u64);
+            let has_now = H::has_now();
+            handles.push(std::thread::spawn(move || {
+                let rt = tokio::runtime::Builder::new_current_thread().enable_all().build().unwrap();
+                rt.block_on(async move {
+                    let mut r = Rng::new(tseed);
+                    let mut c = H::client(path);
+                    let mut lines: Vec<String> = vec!["INIT D".to_string()];
+                    let mut got: Vec<Option<Value>> = Vec::new();
+                    let first = H::client_call(&mut c, "INIT", 0, &["INIT", "D"]).await.flatten();
+                    let bt = first.as_ref().and_then(|v| v["backtest_id"].as_u64()).unwrap_or(u64::MAX);
+                    got.push(first);
+                    for _ in 0..steps {
+                        let line = match r.below(8) {
+                            0..=2 => format!("INS {} {}", bt, H::rand_ins(&mut r)),
+                            3 | 4 => format!("TICK {bt}"),
+                            5 => format!("FETCH {bt}"),
+                            6 => if has_now { format!("NOW {bt}") } else { format!("INFO {bt}") },
+                            _ => format!("DEL {} {}", bt, H::rand_del(&mut r)),
+                        };
+                        let t: Vec<&str> = line.split(' ').collect();
+                        got.push(H::client_call(&mut c, t[0], bt, &t).await.flatten());
+                        lines.push(line.clone());
+                    }
+                    (bt, lines, got)
+                })
+            }));
+        }
+        let mut ids = Vec::new();
+        for h in handles {
+            let (bt, lines, got) = h.join().unwrap();
+            requests += lines.len() as u64;
+            ids.push(bt);
+            // the same requests on a server that holds only this backtest
+            let mut solo = H::A::create(&mut m.clone());
+            let solo_bt = solo.init("D").unwrap_or(u64::MAX);
+            for (k, line) in lines.iter().enumerate() {
+                if k == 0 {
+                    if got[0].is_none() {
+                        mismatches += 1;
+                    }
+                    continue;
+                }
+                let line = line.replacen(&format!(" {bt}"), &format!(" {solo_bt}"), 1);
+                let t: Vec<&str> = line.split(' ').collect();
+                // self-test of the reporting path only: make the reference skip inserts
+                if t[0] == "INS" && std::env::var("VERIF_CONC_SELFTEST").is_ok() {
+                    continue;
+                }
+                let want = direct_want::<H>(&mut solo, &t, solo_bt);
+                if !same_result(&got[k], &want) {
+                    mismatches += 1;
+                    if first.is_none() {
+                        first = Some(json!({"round": round, "backtest": bt, "step": k, "request": lines[k], "concurrent": got[k], "solo": want, "requests_of_this_client": lines}));
+                    }
+                    break;
+                }
+            }
+        }
+        let mut s = ids.clone();
+        s.sort();
+        s.dedup();
+        if s.len() != ids.len() || ids.contains(&u64::MAX) {
+            collisions += 1;
+            if first.is_none() {
+                first = Some(json!({"round": round, "ids_handed_out": ids}));
+            }
+        }
+    }
+    println!("{}", json!({"tcp": true, "rounds": rounds, "clients": tasks, "requests": requests, "id_collisions": collisions, "transcript_mismatches": mismatches, "first": first}));
 }
